@@ -7,7 +7,9 @@ use swc_ecma_visit::VisitMutWith;
 
 use crate::{
     transform::assign_add_transform::AssignOp::Assign,
-    visitor::operation_transform_visitor::OperationTransformVisitor,
+    visitor::{
+        ident_provider::IdentKind, operation_transform_visitor::OperationTransformVisitor,
+    },
 };
 
 use super::{binary_add_transform::BinaryAddTransform, transform_status::TransformResult};
@@ -18,7 +20,7 @@ impl AssignAddTransform {
     pub fn to_dd_assign_expr(
         assign: &mut AssignExpr,
         opv: &mut OperationTransformVisitor,
-    ) -> TransformResult<AssignExpr> {
+    ) -> TransformResult<Expr> {
         let span = assign.span;
 
         match &assign.left {
@@ -28,6 +30,43 @@ impl AssignAddTransform {
             }
 
             AssignTarget::Simple(left_expr) => {
+                // `o().p += x` is lowered to `o().p = o().p + x`: the object (and a computed key) of a
+                // member target would be evaluated twice, so anything but an identifier, `this` or a
+                // literal is evaluated once into a temporal variable first
+                let mut target_assignations = Vec::new();
+                let mut left_expr = left_expr.clone();
+                if let SimpleAssignTarget::Member(member) = &mut left_expr {
+                    // when the key has to be evaluated first, the value of an identifier used as
+                    // object must be taken before that (the key expression may reassign it)
+                    let key_is_hoisted = matches!(&member.prop, MemberProp::Computed(computed) if !is_evaluated_without_effects(&computed.expr));
+                    if !is_evaluated_without_effects(&member.obj)
+                        || (key_is_hoisted && member.obj.is_ident())
+                    {
+                        if let Some(id) = opv.ident_provider.get_temporal_ident_used_in_assignation(
+                            &member.obj,
+                            &mut target_assignations,
+                            &span,
+                            IdentKind::Expr,
+                        ) {
+                            member.obj = Box::new(Expr::Ident(id));
+                        }
+                    }
+                    if let MemberProp::Computed(computed) = &mut member.prop {
+                        if !is_evaluated_without_effects(&computed.expr) {
+                            if let Some(id) =
+                                opv.ident_provider.get_temporal_ident_used_in_assignation(
+                                    &computed.expr,
+                                    &mut target_assignations,
+                                    &span,
+                                    IdentKind::Expr,
+                                )
+                            {
+                                computed.expr = Box::new(Expr::Ident(id));
+                            }
+                        }
+                    }
+                }
+
                 let binary = Expr::Bin(BinExpr {
                     span,
                     op: BinaryOp::Add,
@@ -41,17 +80,35 @@ impl AssignAddTransform {
                     opv.ident_provider,
                 );
                 if result.is_modified() {
-                    let new_assign = AssignExpr {
+                    let new_assign = Expr::Assign(AssignExpr {
                         span,
                         op: Assign,
-                        left: assign.left.clone(),
+                        left: AssignTarget::Simple(left_expr),
                         right: Box::new(result.expr.unwrap()),
-                    };
-                    TransformResult::modified(new_assign)
+                    });
+                    if target_assignations.is_empty() {
+                        TransformResult::modified(new_assign)
+                    } else {
+                        target_assignations.push(new_assign);
+                        TransformResult::modified(Expr::Paren(ParenExpr {
+                            span,
+                            expr: Box::new(Expr::Seq(SeqExpr {
+                                span,
+                                exprs: target_assignations.into_iter().map(Box::new).collect(),
+                            })),
+                        }))
+                    }
                 } else {
                     TransformResult::not_modified()
                 }
             }
         }
     }
+}
+
+fn is_evaluated_without_effects(expr: &Expr) -> bool {
+    matches!(
+        expr,
+        Expr::Ident(_) | Expr::This(_) | Expr::Lit(_) | Expr::SuperProp(_)
+    )
 }
